@@ -217,6 +217,47 @@ theorem stale_consumer_never_served (consumer : Ruv) (now t view at_ : Cid) (s :
   · intro hr
     rcases h with h | h <;> rw [h] at hr <;> cases hr
 
+/-! ## The first sentence is false for the recycle-bin stage -/
+
+/-- "Once an entry has been deleted … no replication schedule makes it live again" (`recycled_is_final`
+below): a delete is a write
+of the `class` attribute (value `rec` = a class set containing `recycled`); whatever arrives for the
+same creation, the entry stays recycled or becomes a tombstone. -/
+def stillDeleted (cls rec : Nat) : St → Bool
+  | .tomb _ => true
+  | .live e => Kanidm.ReplMerge.lookup e.attrs cls == some rec
+
+def recycled_is_final : Prop :=
+  ∀ (cls rec : Nat) (txn : Cid) (db inc : Live), inc.crAt = db.crAt →
+    Kanidm.ReplMerge.lookup db.attrs cls = some rec →
+    stillDeleted cls rec (applyEntry (fun _ _ => none) (fun _ => true) txn (.live inc) (.live db)) = true
+
+/-- It is not: the delete is only a value of a last-writer-wins attribute; a later `class` write from a
+replica that has not seen the delete (a posix extension, say) replaces it and the entry is live again
+on the replica that deleted it (finding D52, class `recycled-revived-by-concurrent-class-write`). -/
+theorem recycled_is_final_false : ¬ recycled_is_final := by
+  intro h
+  have := h 0 101 ⟨9, 1⟩
+    ⟨⟨1, 1⟩, [(0, ⟨3, 1⟩), (1, ⟨1, 1⟩)], [(0, 101), (1, 7)]⟩
+    ⟨⟨1, 1⟩, [(0, ⟨4, 2⟩), (1, ⟨1, 1⟩)], [(0, 102), (1, 7)]⟩ rfl (by decide)
+  revert this
+  decide
+
+/-- Exactly what protects a recycled entry: it stays recycled under every arrival whose `class` write is
+not later than the delete. -/
+theorem recycled_kept_unless_later_class_write (vm : Nat → Nat → Option Nat) (hvm : ∀ n o, vm n o = none)
+    (repl : Nat → Bool) (cls : Nat) (db inc : Live) (c : Cid) (rec : Option Nat)
+    (hdb : rcell repl db cls = some (c, rec))
+    (hnl : ∀ c' v', rcell repl inc cls = some (c', v') → cidLt c c' = false) :
+    rcell repl (mergeLive vm repl inc db) cls = some (c, rec) := by
+  rw [rcell_mergeLive vm hvm, hdb]
+  cases hi : rcell repl inc cls with
+  | none => rfl
+  | some cv =>
+    obtain ⟨c', v'⟩ := cv
+    have := hnl c' v' hi
+    simp [lww, this]
+
 /-! ## The refusal sentence as given is false of the code -/
 
 /-- "A replica that has been out of contact for longer than the changelog window is refused": all the
